@@ -339,8 +339,8 @@ def check_first(run, F):
 
 
 def check_find(run, F):
-    for name, want in (('AggValidBasic::vfirst', 'self.into_iter().find(|a0| VALID(a0))'),
-                       ('AggValidBasic::vlast', 'self.into_iter().rev().find(|a0| VALID(a0))'),
+    for name, want in (('AggValidBasic::vfirst', 'self.into_iter().find(IsNone::not_none)'),
+                       ('AggValidBasic::vlast', 'self.into_iter().rev().find(IsNone::not_none)'),
                        ('AggValidBasic::vfirst', None)):
         if want is None:
             continue
